@@ -283,8 +283,11 @@ Run(ps, kd, h) ==
       RECURSIVE Go(_, _)
       Go(acc, i) ==
         IF i > Len(h) THEN acc
-        ELSE LET r == StepFn(acc.s, h[i], i)
-             IN Go([s |-> r.s, ob |-> [acc.ob EXCEPT !.steps = Append(@, r.ob)]], i + 1)
+        ELSE LET r   == StepFn(acc.s, h[i], i)
+                 nxt == [s |-> r.s, ob |-> [acc.ob EXCEPT !.steps = Append(@, r.ob)]]
+             \* (the test forces `nxt` now: TLC passes arguments lazily, and a
+             \*  chain of unevaluated steps overflows the Java stack at the end)
+             IN IF Len(nxt.ob.steps) = i THEN Go(nxt, i + 1) ELSE acc
   IN IF kd = "dict" /\ i0.ob.bexc # "none" THEN i0 ELSE Go(i0, 1)
 
 -----------------------------------------------------------------------------
@@ -434,12 +437,13 @@ Applied(ps, kd, h, o) ==
        \/ IsReq(h[i]) /\ RefReq(ps, h[i]).st \in {"content", "mustfail"}
        \/ h[i].op = "pickle"
 
-V_C19(ps, kd, h, o) ==
-  LET f == FailSeq(ps, kd, h, o) IN
+\* f = FailSeq(ps, kd, h, o)
+VerdictOf(ps, kd, h, o, f) ==
   IF f # <<>> THEN <<"viol", f[1]>>
   ELSE IF LaterExtra(ps) /\ ~CrossDup(ps) THEN <<"trivial", "later-part-extra-keys">>
   ELSE IF Applied(ps, kd, h, o) THEN <<"ok", "">>
   ELSE <<"trivial", "nothing-to-check">>
+V_C19(ps, kd, h, o) == VerdictOf(ps, kd, h, o, FailSeq(ps, kd, h, o))
 
 (***************************************************************************)
 (* Conformance (drift): the real observation is the one the model predicts *)
@@ -467,7 +471,9 @@ ConfWhere(o, m) ==
 (* PART 4.  SMALL DESCRIPTIONS                                             *)
 
 IdName == <<"e1", "e2", "e3", "e4">>
-DsName == <<"a", "b", "c">>
+\* (names have two letters: CPython shares all one-letter strings, which would
+\*  hide a memo keyed by object identity)
+DsName == <<"aa", "bb", "cc">>
 \* dataset k with the example ids of `shape`; every stored example has its
 \* own payload
 MkDs(k, shape) ==
@@ -500,15 +506,15 @@ DsCfgs(nd) == IF nd = 0 THEN {<<>>}
               ELSE {Append(c, MkDs(nd, sh)) : c \in DsCfgs(nd - 1), sh \in ShapesOf(nd)}
 AllDsCfgs(u) == UNION {DsCfgs(nd) : nd \in 0..3}
 XMems == IF Rich = 1
-         THEN {<<"a">>, <<"a", "b">>, <<"b", "a">>, <<"b", "c">>, <<"a", "a">>, <<>>,
-               <<"a", "zz">>, <<"a", "b", "c">>, <<"c", "b", "a">>}
-         ELSE {<<"a", "b">>, <<"b", "a">>, <<"b", "c">>, <<"a", "a">>, <<>>, <<"a", "zz">>}
-YMems == IF Rich = 1 THEN {<<"a", "b", "c">>, <<"c">>, <<"b">>, <<"x">>}
-         ELSE {<<"a", "b", "c">>, <<"c">>}
+         THEN {<<"aa">>, <<"aa", "bb">>, <<"bb", "aa">>, <<"bb", "cc">>, <<"aa", "aa">>, <<>>,
+               <<"aa", "zz">>, <<"aa", "bb", "cc">>, <<"cc", "bb", "aa">>}
+         ELSE {<<"aa", "bb">>, <<"bb", "aa">>, <<"bb", "cc">>, <<"aa", "aa">>, <<>>, <<"aa", "zz">>}
+YMems == IF Rich = 1 THEN {<<"aa", "bb", "cc">>, <<"cc">>, <<"bb">>, <<"xx">>}
+         ELSE {<<"aa", "bb", "cc">>, <<"cc">>}
 AlCfgs(u) == {<<>>}
-          \cup {<<Al("x", m)>> : m \in XMems}
-          \cup {<<Al("x", m), Al("y", m2)>> : m \in XMems, m2 \in YMems}
-          \cup (IF Rich = 1 THEN {<<Al("b", <<"a">>)>>, <<Al("x", <<"a">>), Al("b", <<"a">>)>>}
+          \cup {<<Al("xx", m)>> : m \in XMems}
+          \cup {<<Al("xx", m), Al("yy", m2)>> : m \in XMems, m2 \in YMems}
+          \cup (IF Rich = 1 THEN {<<Al("bb", <<"aa">>)>>, <<Al("xx", <<"aa">>), Al("bb", <<"aa">>)>>}
                 ELSE {})
 ContentLayouts ==
   {[np |-> 1, split |-> FALSE, ap |-> 1, secs |-> {}],
@@ -516,39 +522,46 @@ ContentLayouts ==
    [np |-> 2, split |-> TRUE,  ap |-> 2, secs |-> {}],      \* only the later part has aliases
    [np |-> 2, split |-> TRUE,  ap |-> 2, secs |-> {1}],
    [np |-> 2, split |-> TRUE,  ap |-> 1, secs |-> {}]}
-ContentDescs(u) ==       \* (a parameter keeps TLC from evaluating the set at startup)
-  {Layout(lay.np, dss, [k \in 1..Len(dss) |-> IF lay.split /\ k > 1 THEN 2 ELSE 1],
-          als, [k \in 1..Len(als) |-> lay.ap], lay.secs, <<>>, 0)
-   : lay \in ContentLayouts, dss \in AllDsCfgs(0), als \in AlCfgs(0)}
+\* (predicates over the chosen description p rather than sets of
+\*  descriptions: TLC enumerates the parameters without first building and
+\*  normalising a huge set of nested records)
+IsContentDesc(p) ==
+  \E lay \in ContentLayouts, dss \in AllDsCfgs(0), als \in AlCfgs(0) :
+    p = Layout(lay.np, dss, [k \in 1..Len(dss) |-> IF lay.split /\ k > 1 THEN 2 ELSE 1],
+               als, [k \in 1..Len(als) |-> lay.ap], lay.secs, <<>>, 0)
 
 (* family "layout": fixed content, every placement over 1..3 parts, alias  *)
 (* sections present / missing, further keys, one duplicate                 *)
 LDs == IF Rich = 1 THEN <<MkDs(1, <<1>>), MkDs(2, <<3>>), MkDs(3, <<2, 1>>)>>
        ELSE <<MkDs(1, <<1>>), MkDs(2, <<3>>)>>
-LAls == {<<>>, <<Al("x", <<"a", "b">>)>>, <<Al("x", <<"a", "b">>), Al("y", <<"b">>)>>}
+LAls == {<<>>, <<Al("xx", <<"aa", "bb">>)>>, <<Al("xx", <<"aa", "bb">>), Al("yy", <<"bb">>)>>}
 Ex1Opts == {<<>>, <<XDict>>, <<XStr>>, <<XDict, XStr>>}
 DupKinds == {"ds-ds", "al-ds", "ds-al", "al-al"}
 \* place one name a second time, in part q
 WithDup(ps, dk, q) ==
-  CASE dk = "ds-ds" -> AddDs(ps, q, [name |-> "a", exs |-> <<[id |-> "e4", pay |-> 41]>>])
-    [] dk = "al-ds" -> AddAl(ps, q, Al("a", <<"b">>))
-    [] dk = "ds-al" -> AddDs(ps, q, [name |-> "x", exs |-> <<[id |-> "e4", pay |-> 42]>>])
-    [] OTHER        -> AddAl(ps, q, Al("x", <<"b">>))
+  CASE dk = "ds-ds" -> AddDs(ps, q, [name |-> "aa", exs |-> <<[id |-> "e4", pay |-> 41]>>])
+    [] dk = "al-ds" -> AddAl(ps, q, Al("aa", <<"bb">>))
+    [] dk = "ds-al" -> AddDs(ps, q, [name |-> "xx", exs |-> <<[id |-> "e4", pay |-> 42]>>])
+    [] OTHER        -> AddAl(ps, q, Al("xx", <<"bb">>))
 DupOk(ps, dk, q) ==      \* the name exists, and not in part q
-  LET nm == IF dk \in {"ds-ds", "al-ds"} THEN "a" ELSE "x"
+  LET nm == IF dk \in {"ds-ds", "al-ds"} THEN "aa" ELSE "xx"
   IN nm \notin NamesOf(ps[q]) /\ \E p \in 1..Len(ps) : nm \in NamesOf(ps[p])
 \* <<aliases, part of each alias>>
 AlPlacements(np) == UNION {{<<als, ap>> : ap \in [1..Len(als) -> 1..np]} : als \in LAls}
-BaseLayouts(np, secsOpts, ex1Opts, exlOpts) ==
-  {Layout(np, LDs, dp, z[1], z[2], secs, ex1, exl)
-   : dp \in [1..Len(LDs) -> 1..np], z \in AlPlacements(np), secs \in secsOpts,
-     ex1 \in ex1Opts, exl \in exlOpts}
-LayoutDescsOf(np) ==
-  BaseLayouts(np, SUBSET (1..np), Ex1Opts, {0})
-  \cup BaseLayouts(np, {{}, 1..np}, {<<>>, <<XStr>>}, 2..np)
-  \cup UNION {{WithDup(b, dk, q) : q \in {q2 \in 1..np : DupOk(b, dk, q2)}}
-              : b \in BaseLayouts(np, {{}, 1..np}, {<<>>}, {0}), dk \in DupKinds}
-LayoutDescs(u) == UNION {LayoutDescsOf(np) : np \in 1..3}
+IsBaseLayout(p, np, secsOpts, ex1Opts, exlOpts) ==
+  \E dp \in [1..Len(LDs) -> 1..np], z \in AlPlacements(np), secs \in secsOpts,
+     ex1 \in ex1Opts, exl \in exlOpts :
+    p = Layout(np, LDs, dp, z[1], z[2], secs, ex1, exl)
+IsLayoutDesc(p) ==
+  \E np \in 1..3 :
+    \/ IF Rich = 1 THEN IsBaseLayout(p, np, SUBSET (1..np), Ex1Opts, {0})
+       ELSE \/ IsBaseLayout(p, np, SUBSET (1..np), {<<>>}, {0})
+            \/ IsBaseLayout(p, np, {{}, 1..np}, Ex1Opts, {0})
+    \/ IsBaseLayout(p, np, {{}, 1..np}, {<<>>, <<XStr>>}, 2..np)
+    \/ \E dp \in [1..Len(LDs) -> 1..np], z \in AlPlacements(np), secs \in {{}, 1..np},
+          dk \in DupKinds, q \in 1..np :
+         LET b == Layout(np, LDs, dp, z[1], z[2], secs, <<>>, 0)
+         IN DupOk(b, dk, q) /\ p = WithDup(b, dk, q)
 
 (* family "history": a handful of descriptions, every request history      *)
 HistDescs(u) ==
@@ -557,20 +570,16 @@ HistDescs(u) ==
       b1  == MkDs(2, <<1>>)
       P(ds, hasal, al, extra) == [ds |-> ds, hasal |-> hasal, al |-> al, extra |-> extra]
   IN {<<P(<<a21, b3>>, FALSE, <<>>, <<>>)>>,                          \* one part, no alias section
-      <<P(<<a21, b3>>, TRUE, <<Al("x", <<"a", "b">>)>>, <<XStr>>)>>,  \* one part with an alias
-      <<P(<<a21>>, TRUE, <<Al("x", <<"a">>)>>, <<XDict>>),            \* two parts, both with aliases
-        P(<<b3>>, TRUE, <<Al("y", <<"b", "a">>)>>, <<>>)>>,
+      <<P(<<a21, b3>>, TRUE, <<Al("xx", <<"aa", "bb">>)>>, <<XStr>>)>>,  \* one part with an alias
+      <<P(<<a21>>, TRUE, <<Al("xx", <<"aa">>)>>, <<XDict>>),            \* two parts, both with aliases
+        P(<<b3>>, TRUE, <<Al("yy", <<"bb", "aa">>)>>, <<>>)>>,
       <<P(<<a21>>, FALSE, <<>>, <<>>),                                \* only the later part has aliases
-        P(<<b3>>, TRUE, <<Al("x", <<"a", "b">>)>>, <<>>)>>,
-      <<P(<<MkDs(1, <<1>>), b1>>, TRUE, <<Al("x", <<"a", "b">>)>>, <<>>)>>}  \* overlapping ids
+        P(<<b3>>, TRUE, <<Al("xx", <<"aa", "bb">>)>>, <<>>)>>,
+      <<P(<<MkDs(1, <<1>>), b1>>, TRUE, <<Al("xx", <<"aa", "bb">>)>>, <<>>)>>}  \* overlapping ids
 
-Descs == CASE Family = "content" -> ContentDescs(0)
-           [] Family = "layout"  -> LayoutDescs(0)
-           [] Family = "history" -> HistDescs(0)
-           [] OTHER              -> {}
 
 (* requests                                                                *)
-NameOrder == <<"a", "b", "c", "x", "y", "zz">>
+NameOrder == <<"aa", "bb", "cc", "xx", "yy", "zz">>
 AllNames(ps) == UNION {NamesOf(ps[p]) : p \in 1..Len(ps)}
 \* the probe history of the families "content" and "layout": every name,
 \* the list catalogue, None; json: a pickle round trip and two more requests
@@ -578,22 +587,22 @@ ProbeSeq(ps, kd) ==
   LET N     == AllNames(ps) \cup {"zz"}
       names == SelectSeq(NameOrder, LAMBDA x : x \in N)
       lists == IF Family = "content"
-               THEN <<GetL(<<"a">>, FALSE), GetL(<<"a", "b">>, FALSE), GetL(<<"b", "a">>, TRUE),
-                      GetL(<<"a", "a">>, FALSE), GetL(<<"x", "a">>, FALSE),
-                      GetL(<<"a", "zz">>, TRUE), GetL(<<>>, FALSE),
-                      GetL(<<"c", "b", "a">>, FALSE)>>
-               ELSE <<GetL(<<"a", "b">>, FALSE), GetL(<<"x", "b">>, TRUE)>>
+               THEN <<GetL(<<"aa">>, FALSE), GetL(<<"aa", "bb">>, FALSE), GetL(<<"bb", "aa">>, TRUE),
+                      GetL(<<"aa", "aa">>, FALSE), GetL(<<"xx", "aa">>, FALSE),
+                      GetL(<<"aa", "zz">>, TRUE), GetL(<<>>, FALSE),
+                      GetL(<<"cc", "bb", "aa">>, FALSE)>>
+               ELSE <<GetL(<<"aa", "bb">>, FALSE), GetL(<<"xx", "bb">>, TRUE)>>
       first == IF names = <<>> THEN "zz" ELSE names[1]
   IN [j \in 1..Len(names) |-> Get(names[j])]
      \o SelectSeq(lists, LAMBDA a : SeqSet(a.names) \subseteq N)
      \o <<GetNone>>
-     \o (IF kd = "json" THEN <<Pickle, Get(first), GetL(<<"a", "b">>, FALSE)>> ELSE <<>>)
+     \o (IF kd = "json" THEN <<Pickle, Get(first), GetL(<<"aa", "bb">>, FALSE)>> ELSE <<>>)
 \* the request alphabet of the family "history"
 HistReqs(ps) ==
   LET N == AllNames(ps) IN
-  {Get(nm) : nm \in (N \cap {"a", "b", "x"}) \cup {"zz"}}
-  \cup {a \in {GetL(<<"a", "b">>, FALSE), GetL(<<"a">>, FALSE)} : SeqSet(a.names) \subseteq N}
-  \cup (IF Rich = 1 THEN {GetNone} \cup {a \in {GetL(<<"x", "a">>, TRUE)} : SeqSet(a.names) \subseteq N}
+  {Get(nm) : nm \in (N \cap {"aa", "bb", "xx"}) \cup {"zz"}}
+  \cup {a \in {GetL(<<"aa", "bb">>, FALSE), GetL(<<"aa">>, FALSE)} : SeqSet(a.names) \subseteq N}
+  \cup (IF Rich = 1 THEN {GetNone} \cup {a \in {GetL(<<"xx", "aa">>, TRUE)} : SeqSet(a.names) \subseteq N}
         ELSE {})
 
 -----------------------------------------------------------------------------
@@ -601,18 +610,25 @@ HistReqs(ps) ==
 
 VARIABLES parts, kind,      \* the description and the back end (fixed by Init)
           hist,             \* history variable: the steps so far
+          todo,             \* families "content" / "layout": the rest of the probe history
           src, loaded, merged, memo, live, epoch,   \* see PART 1
           mobs              \* the model's observation of `hist`
-vars == <<parts, kind, hist, src, loaded, merged, memo, live, epoch, mobs>>
+vars == <<parts, kind, hist, todo, src, loaded, merged, memo, live, epoch, mobs>>
 
 Cur == [parts |-> parts, kind |-> kind, src |-> src,
         shared |-> kind = "dict" /\ Len(parts) = 1,
         loaded |-> loaded, merged |-> merged, memo |-> memo, live |-> live, epoch |-> epoch]
 
+Probing == Family \in {"content", "layout"}
+
 Init ==
-  /\ parts \in Descs
+  /\ CASE Family = "content" -> IsContentDesc(parts)
+       [] Family = "layout"  -> IsLayoutDesc(parts)
+       [] Family = "history" -> parts \in HistDescs(0)
+       [] OTHER              -> FALSE
   /\ kind \in {"dict", "json"}
   /\ hist = <<>>
+  /\ todo = IF Probing THEN ProbeSeq(parts, kind) ELSE <<>>
   /\ LET r == InitRec(parts, kind) IN
      /\ src = r.s.src /\ loaded = r.s.loaded /\ merged = r.s.merged
      /\ memo = r.s.memo /\ live = r.s.live /\ epoch = r.s.epoch
@@ -620,9 +636,7 @@ Init ==
 
 \* a DictDatabase whose constructor raised does not exist
 Exists == kind = "json" \/ mobs.bexc = "none"
-Probing == Family \in {"content", "layout"}
-Limit == IF Probing THEN Len(ProbeSeq(parts, kind)) ELSE MaxHist
-CanStep == Exists /\ Len(hist) < Limit
+CanStep == Exists /\ (IF Probing THEN todo # <<>> ELSE Len(hist) < MaxHist)
 
 Do(a) ==
   LET r == StepFn(Cur, a, Len(hist) + 1) IN
@@ -639,16 +653,15 @@ Release(k) == CanStep /\ (\E lv \in live : lv.h = k) /\ Do(Rel(k))
 \* db = pickle.loads(pickle.dumps(db))   (JsonDatabase only)
 PickleRoundTrip == CanStep /\ kind = "json" /\ Do(Pickle)
 
-ProbeNext ==
-  /\ CanStep
-  /\ LET a == ProbeSeq(parts, kind)[Len(hist) + 1] IN
-     IF IsReq(a) THEN Request(a) ELSE PickleRoundTrip
-
 Next ==
-  IF Probing THEN ProbeNext
-  ELSE \/ \E a \in HistReqs(parts) : Request(a)
-       \/ \E k \in 1..Len(hist) : Release(k)
-       \/ PickleRoundTrip
+  IF Probing
+  THEN /\ todo # <<>>
+       /\ todo' = Tail(todo)
+       /\ IF IsReq(Head(todo)) THEN Request(Head(todo)) ELSE PickleRoundTrip
+  ELSE /\ UNCHANGED todo
+       /\ \/ \E a \in HistReqs(parts) : Request(a)
+          \/ \E k \in 1..Len(hist) : Release(k)
+          \/ PickleRoundTrip
 
 Spec == Init /\ [][Next]_vars
 
@@ -673,7 +686,7 @@ Inv_MemoWeak ==
 \* histories are prefixes of emitted ones, their steps are judged there.
 EmitBehaviour ==
   CanStep \/
+    LET f == FailSeq(parts, kind, hist, mobs) IN
     PrintT(<<"VEC", ToJson([parts |-> parts, kind |-> kind, history |-> hist,
-                            mv |-> V_C19(parts, kind, hist, mobs),
-                            mc |-> FailSeq(parts, kind, hist, mobs)])>>)
+                            mv |-> VerdictOf(parts, kind, hist, mobs, f), mc |-> f])>>)
 =============================================================================
